@@ -35,9 +35,12 @@ type c12Case struct {
 	Seed     int64  `json:"seed"`
 	// ManyAborts: a long history on one channel with a chunk limit of 8: rounds of an aborted 3-chunk message
 	// followed by a complete multi-chunk message
-	ManyAborts bool   `json:"many_aborts,omitempty"`
-	Detail     string `json:"detail,omitempty"`
-	Order      string `json:"chunk_order,omitempty"`
+	ManyAborts bool `json:"many_aborts,omitempty"`
+	// LargeInterleaved: two messages of 40 kB each, interleaved chunk by chunk, on a channel that announced a
+	// MaxMessageSize of 64 kB: each is within the limit, the bytes buffered for both together are not
+	LargeInterleaved bool   `json:"large_interleaved,omitempty"`
+	Detail           string `json:"detail,omitempty"`
+	Order            string `json:"chunk_order,omitempty"`
 }
 
 type c12Msg struct {
@@ -183,6 +186,9 @@ func c12ServerSide(c *fw.Ctx, cs c12Case) {
 		// a small chunk limit, so that what aborted messages leave behind (if anything) adds up quickly
 		ack = &uacp.Acknowledge{ReceiveBufSize: 65535, SendBufSize: 65535, MaxChunkCount: 8, MaxMessageSize: 0}
 	}
+	if cs.LargeInterleaved {
+		ack = &uacp.Acknowledge{ReceiveBufSize: 65535, SendBufSize: 65535, MaxChunkCount: 0, MaxMessageSize: 65536}
+	}
 	bs, err := newBareServer(ack)
 	if err != nil {
 		c.Inconclusive("listen: " + err.Error())
@@ -284,6 +290,18 @@ func c12ServerSide(c *fw.Ctx, cs c12Case) {
 			for k := range ok.parts {
 				order = append(order, [2]int{oi, k})
 			}
+		}
+	}
+	if cs.LargeInterleaved {
+		msgs, order = nil, nil
+		for k := 0; k < 2; k++ {
+			m := &c12Msg{reqID: uint32(300 + k), abortAt: -1, nonce: fmt.Sprintf("big%d", k)}
+			m.body = c12Body(r, m.nonce, 40000)
+			m.parts = c12Split(r, m.body, 6)
+			msgs = append(msgs, m)
+		}
+		for k := 0; k < 6; k++ {
+			order = append(order, [2]int{0, k}, [2]int{1, k})
 		}
 	}
 	desc, err := c12Send(ch, msgs, order)
@@ -558,6 +576,9 @@ func c12Run(c *fw.Ctx) error {
 		cs := c12Case{Index: i, Side: []string{"server-channel", "client-channel"}[i%2], Mode: []int{1, 1, 2, 3}[r.Intn(4)], FirstSeq: c12FirstSeq(r), Msgs: 1 + r.Intn(5), Seed: r.Int63()}
 		if i%16 == 0 {
 			cs.Side, cs.ManyAborts = "server-channel", true
+		}
+		if i%16 == 8 {
+			cs.Side, cs.LargeInterleaved, cs.Mode = "server-channel", true, 1
 		}
 		c.Journal(i, cs)
 		if cs.Side == "server-channel" {
